@@ -1,6 +1,303 @@
 package main
 
-// runCodec: mode codec (stub, filled in by its check).
-func runCodec(script, out string) {
-	fatal("mode codec not implemented")
+import (
+	"bufio"
+	"bytes"
+	"encoding/gob"
+	"encoding/hex"
+	"encoding/json"
+	"fmt"
+	"math"
+	"os"
+	"sort"
+	"strconv"
+	"strings"
+	"time"
+
+	"github.com/rivo/sessions"
+)
+
+// Codec mode: round trips through the package's own gob and JSON codecs on arbitrary field values, and
+// decoding of given bytes (golden corpus, malformed input).
+//
+// script lines
+//   rt <gob|json> us=<-|s<hex>|i<int>> cr=<sec>.<nanos>@<zone offset s> la=<...> ip=<q> ua=<uint64> rf=<q|-> da=<nil|value>
+//   dec <gob|json> <hex bytes>
+// typed values: s<hex> i<int> I<int64> F<ieee754 hex> b0 b1 n L(<v>;<v>...) M(<qkey>=<v>;...)
+// output
+//   rt <codec> ok bytes=<hex> <decoded fields>        | rt <codec> encerr | rt <codec> decerr bytes=<hex> | rt <codec> panic
+//   dec <codec> ok <fields> reenc=<ok|err>            | dec <codec> err | dec <codec> panic
+
+type cuser struct{ id interface{} }
+
+func (u *cuser) GetID() interface{} { return u.id }
+
+type codecStore struct{ lastLoadUser string }
+
+func (c *codecStore) LoadSession(id string) (*sessions.Session, error) { return nil, nil }
+func (c *codecStore) SaveSession(id string, s *sessions.Session) error { return nil }
+func (c *codecStore) DeleteSession(id string) error                    { return nil }
+func (c *codecStore) UserSessions(userID interface{}) ([]string, error) {
+	return nil, nil
+}
+func (c *codecStore) LoadUser(id interface{}) (sessions.User, error) {
+	c.lastLoadUser = renderTyped(id)
+	return &cuser{id: id}, nil
+}
+
+func renderTyped(v interface{}) string {
+	switch x := v.(type) {
+	case nil:
+		return "n"
+	case string:
+		return "s" + hex.EncodeToString([]byte(x))
+	case int:
+		return "i" + strconv.Itoa(x)
+	case int64:
+		return "I" + strconv.FormatInt(x, 10)
+	case float64:
+		return "F" + strconv.FormatUint(math.Float64bits(x), 16)
+	case bool:
+		if x {
+			return "b1"
+		}
+		return "b0"
+	case []interface{}:
+		parts := make([]string, len(x))
+		for i, e := range x {
+			parts[i] = renderTyped(e)
+		}
+		return "L(" + strings.Join(parts, ";") + ")"
+	case map[string]interface{}:
+		keys := make([]string, 0, len(x))
+		for k := range x {
+			keys = append(keys, k)
+		}
+		sort.Strings(keys)
+		parts := make([]string, len(keys))
+		for i, k := range keys {
+			parts[i] = "~" + hex.EncodeToString([]byte(k)) + "=" + renderTyped(x[k])
+		}
+		return "M(" + strings.Join(parts, ";") + ")"
+	default:
+		return fmt.Sprintf("?%T", v)
+	}
+}
+
+// splitTop splits on sep at nesting depth 0.
+func splitTop(s string, sep byte) []string {
+	if s == "" {
+		return nil
+	}
+	var out []string
+	depth, start := 0, 0
+	for i := 0; i < len(s); i++ {
+		switch s[i] {
+		case '(':
+			depth++
+		case ')':
+			depth--
+		default:
+			if s[i] == sep && depth == 0 {
+				out = append(out, s[start:i])
+				start = i + 1
+			}
+		}
+	}
+	return append(out, s[start:])
+}
+
+func parseTyped(s string) interface{} {
+	if s == "" {
+		fatal("empty typed value")
+	}
+	switch s[0] {
+	case 'n':
+		return nil
+	case 's':
+		b, err := hex.DecodeString(s[1:])
+		if err != nil {
+			fatal("bad hex")
+		}
+		return string(b)
+	case 'i':
+		n, _ := strconv.Atoi(s[1:])
+		return n
+	case 'I':
+		n, _ := strconv.ParseInt(s[1:], 10, 64)
+		return n
+	case 'F':
+		n, _ := strconv.ParseUint(s[1:], 16, 64)
+		return math.Float64frombits(n)
+	case 'b':
+		return s[1:] == "1"
+	case 'L':
+		inner := s[2 : len(s)-1]
+		l := []interface{}{}
+		for _, p := range splitTop(inner, ';') {
+			l = append(l, parseTyped(p))
+		}
+		return l
+	case 'M':
+		inner := s[2 : len(s)-1]
+		m := map[string]interface{}{}
+		for _, p := range splitTop(inner, ';') {
+			kv := strings.SplitN(p, "=", 2)
+			m[unq(kv[0])] = parseTyped(kv[1])
+		}
+		return m
+	}
+	fatal("bad typed value %q", s)
+	return nil
+}
+
+func parseTime(s string) time.Time {
+	// <sec>.<nanos>@<offset seconds>   or "zero"
+	if s == "zero" {
+		return time.Time{}
+	}
+	at := strings.SplitN(s, "@", 2)
+	sn := strings.SplitN(at[0], ".", 2)
+	sec, _ := strconv.ParseInt(sn[0], 10, 64)
+	ns, _ := strconv.ParseInt(sn[1], 10, 64)
+	off, _ := strconv.Atoi(at[1])
+	loc := time.UTC
+	if off != 0 {
+		loc = time.FixedZone("", off)
+	}
+	return time.Unix(sec, ns).In(loc)
+}
+
+func renderTime(t time.Time) string {
+	if t.IsZero() {
+		return "zero"
+	}
+	_, off := t.Zone()
+	return fmt.Sprintf("%d.%d@%d", t.Unix(), t.Nanosecond(), off)
+}
+
+func renderCodecFields(f sessions.VerifSessionFields, loadUser string) string {
+	us := "-"
+	if f.User != nil {
+		us = renderTyped(f.User.GetID())
+	}
+	da := "nil"
+	if !f.DataNil {
+		da = renderTyped(map[string]interface{}(f.Data))
+	}
+	return fmt.Sprintf("us=%s lu=%s cr=%s la=%s ip=%s ua=%d rf=%s da=%s", us, loadUser, renderTime(f.Created), renderTime(f.LastAccess),
+		q(f.LastIP), f.UAHash, qopt(f.ReferenceID), da)
+}
+
+func encodeWith(codec string, s *sessions.Session) ([]byte, error) {
+	if codec == "json" {
+		return json.Marshal(s)
+	}
+	var buf bytes.Buffer
+	err := gob.NewEncoder(&buf).Encode(s)
+	return buf.Bytes(), err
+}
+
+func decodeWith(codec string, b []byte) (*sessions.Session, error) {
+	var s sessions.Session
+	if codec == "json" {
+		err := json.Unmarshal(b, &s)
+		return &s, err
+	}
+	err := gob.NewDecoder(bytes.NewReader(b)).Decode(&s)
+	return &s, err
+}
+
+func runCodec(script, outPath string) {
+	f, err := os.Create(outPath)
+	if err != nil {
+		fmt.Fprintln(os.Stderr, err)
+		os.Exit(3)
+	}
+	out = bufio.NewWriterSize(f, 1<<20)
+	defer out.Flush()
+	gob.Register([]interface{}{})
+	gob.Register(map[string]interface{}{})
+	cs := &codecStore{}
+	sessions.Persistence = cs
+	in, err := os.Open(script)
+	if err != nil {
+		fatal("%v", err)
+	}
+	sc := bufio.NewScanner(in)
+	sc.Buffer(make([]byte, 1<<20), 1<<26)
+	for sc.Scan() {
+		tok := strings.Fields(sc.Text())
+		if len(tok) < 2 {
+			continue
+		}
+		codec := tok[1]
+		func() {
+			defer func() {
+				if r := recover(); r != nil {
+					emit("%s %s panic", tok[0], codec)
+				}
+			}()
+			switch tok[0] {
+			case "rt":
+				var fl sessions.VerifSessionFields
+				fl.DataNil = true
+				for _, kv := range tok[2:] {
+					p := strings.SplitN(kv, "=", 2)
+					switch p[0] {
+					case "us":
+						if p[1] != "-" {
+							fl.User = &cuser{id: parseTyped(p[1])}
+						}
+					case "cr":
+						fl.Created = parseTime(p[1])
+					case "la":
+						fl.LastAccess = parseTime(p[1])
+					case "ip":
+						fl.LastIP = unq(p[1])
+					case "ua":
+						fl.UAHash, _ = strconv.ParseUint(p[1], 10, 64)
+					case "rf":
+						if p[1] != "-" {
+							fl.ReferenceID = unq(p[1])
+						}
+					case "da":
+						if p[1] != "nil" {
+							fl.DataNil = false
+							fl.Data = parseTyped(p[1]).(map[string]interface{})
+						}
+					}
+				}
+				s := sessions.VerifNewSession(fl)
+				b, err := encodeWith(codec, s)
+				if err != nil {
+					emit("rt %s encerr", codec)
+					return
+				}
+				cs.lastLoadUser = "-"
+				d, err := decodeWith(codec, b)
+				if err != nil {
+					emit("rt %s decerr bytes=%s", codec, hex.EncodeToString(b))
+					return
+				}
+				emit("rt %s ok bytes=%s %s", codec, hex.EncodeToString(b), renderCodecFields(sessions.VerifFields(d), cs.lastLoadUser))
+			case "dec":
+				b, err := hex.DecodeString(tok[2])
+				if err != nil {
+					fatal("bad hex bytes")
+				}
+				cs.lastLoadUser = "-"
+				d, err := decodeWith(codec, b)
+				if err != nil {
+					emit("dec %s err", codec)
+					return
+				}
+				re := "ok"
+				if _, err := encodeWith(codec, d); err != nil {
+					re = "err"
+				}
+				emit("dec %s ok %s reenc=%s", codec, renderCodecFields(sessions.VerifFields(d), cs.lastLoadUser), re)
+			}
+		}()
+	}
 }
